@@ -558,6 +558,8 @@ func waitRule(c *Check, w, isReady *ssa.Function) {
 		if gi, ok := in.(*ssa.Go); ok {
 			if mc, ok := gi.Call.Value.(*ssa.MakeClosure); ok {
 				g = mc.Fn.(*ssa.Function)
+			} else if sc := staticCallee(&gi.Call); sc != nil && InRepo(sc) && sc.Blocks != nil {
+				g = sc // go o.pollUntilReady(ctx, out): a named function or method
 			}
 		}
 	})
